@@ -448,19 +448,24 @@ class FeatureStructure:
     def set(self, path: str, value: Any):
         """Recursively sets an attribute, e.g. fs.set("a.b.c", 42) would set attribute `c` of `b` of `a` to `42`."""
 
+        if not isinstance(path, str):
+            raise AttributeError(f"Feature path [{path}] must be a string but is a [{type(path)}]")
+
         if "." not in path:
-            setattr(self, path, value)
-            return
+            target = self
+            value_name = path
+        else:
+            idx = path.rindex(".")
 
-        idx = path.rindex(".")
+            value_name = path[idx + 1 :]
+            path = path[:idx]
 
-        value_name = path[idx + 1 :]
-        path = path[:idx]
+            target = self.get(path)
 
-        target = self.get(path)
-
-        if target is None:
-            raise AttributeError(f"Attribute with name [{value_name}] not found on: {target}")
+        # Only features can be assigned through a path, not other attributes such as the type or the xmi:id
+        if not isinstance(target, FeatureStructure) or target.type.get_feature(value_name) is None:
+            target_name = target.type.name if isinstance(target, FeatureStructure) else target
+            raise AttributeError(f"Feature with name [{value_name}] not found on: {target_name}")
 
         setattr(target, value_name, value)
 
